@@ -185,6 +185,29 @@ func (x *Exec) vcIntrinsic(fr *Frame, name string, args []Value, pos token.Pos) 
 			cm.assigns = append(cm.assigns, iv.V)
 		}
 		return nil
+	case "AssignsGlobal":
+		if cm == nil {
+			return nil
+		}
+		s := asSlice(args[0])
+		n, _ := concreteLen(s)
+		for i := 0; i < n; i++ {
+			name := x.constStr(x.elemAt(s, bv64(int64(i))))
+			var g *ssa.Global
+			j := strings.LastIndex(name, ".")
+			for _, pk := range x.P.Prog.AllPackages() {
+				if pk.Pkg.Path() == name[:j] {
+					g, _ = pk.Members[name[j+1:]].(*ssa.Global)
+				}
+			}
+			if g == nil {
+				unsup("vc.AssignsGlobal: no global %s", name)
+			}
+			o := x.globalObject(g)
+			x.heapGet(o)
+			cm.assigns = append(cm.assigns, PtrV{Obj: o, Nil: False()})
+		}
+		return nil
 	case "HavocU8":
 		return Scalar{x.freshIn("havoc", BV(8), types.Typ[types.Uint8])}
 	case "HavocU16":
@@ -277,3 +300,114 @@ func (x *Exec) invokeModel(fr *Frame, iv IfaceV, method string, args []Value, po
 var ifaceModels = map[string]func(x *Exec, fr *Frame, iv IfaceV, args []Value, pos token.Pos) Value{}
 
 var _ = types.Typ
+
+// specFn finds a function of the spec module by "pkg.Name" (e.g. "nasalg.CTRByte").
+func (x *Exec) specFn(name string) *ssa.Function {
+	i := strings.LastIndex(name, ".")
+	for _, pk := range x.P.Prog.AllPackages() {
+		if pk.Pkg.Path() == "vspec/"+name[:i] {
+			if f := pk.Func(name[i+1:]); f != nil {
+				return f
+			}
+		}
+	}
+	unsup("spec function %s not loaded", name)
+	return nil
+}
+
+func (x *Exec) callSpec(name string, args ...Value) Value {
+	fn := x.specFn(name)
+	saved := x.st
+	r := x.callStatic(&Frame{fn: fn, ghost: true}, fn, args, nil, token.NoPos)
+	if x.st == nil {
+		x.st = saved
+		unsup("spec function %s did not return", name)
+	}
+	return r
+}
+
+// sliceToArrayValue reads n elements of s as a Go array value.
+func (x *Exec) sliceToArrayValue(s SliceV, n int) Value {
+	e := make([]Value, n)
+	for i := range e {
+		e[i] = x.elemAt(s, bv64(int64(i)))
+	}
+	return ArrayV{e}
+}
+
+func (x *Exec) arrayToFreshSlice(a Value, name string) SliceV {
+	av := a.(ArrayV)
+	o := x.newObject(types.Typ[types.Uint8], name)
+	x.st.heap.m[o] = av
+	n := bv64(int64(len(av.E)))
+	return SliceV{Obj: o, Off: bv64(0), Len: n, Cap: n, Nil: False()}
+}
+
+func init() {
+	// crypto/aes.NewCipher(key): for a 16-octet key returns (block, nil); the block remembers the key.
+	extModels["crypto/aes.NewCipher"] = func(x *Exec, fr *Frame, args []Value, pos token.Pos) Value {
+		k := asSlice(args[0])
+		n, ok := concreteLen(k)
+		if !ok || n != 16 {
+			unsup("aes.NewCipher with a key that is not 16 octets")
+		}
+		blk := IfaceV{Nil: False(), Tag: "aesblock", V: x.sliceToArrayValue(k, 16)}
+		return TupleV{E: []Value{blk, IfaceV{Nil: True(), Tag: "error"}}}
+	}
+	// crypto/cipher.NewCTR(block, iv): a stream positioned at octet 0.
+	extModels["crypto/cipher.NewCTR"] = func(x *Exec, fr *Frame, args []Value, pos token.Pos) Value {
+		blk, ok := args[0].(IfaceV)
+		if !ok || blk.Tag != "aesblock" {
+			unsup("cipher.NewCTR on unknown block")
+		}
+		iv := asSlice(args[1])
+		n, ok := concreteLen(iv)
+		if !ok || n != 16 {
+			x.oblige("S", "panic", False(), pos)
+			x.st = nil
+			return nil
+		}
+		return IfaceV{Nil: False(), Tag: "ctr", V: StructV{F: []Value{blk.V, x.sliceToArrayValue(iv, 16)}}}
+	}
+	// Stream.XORKeyStream(dst, src) on a fresh CTR stream: dst[j] = src[j] xor CTRByte(key, iv, j); panics if dst is shorter.
+	ifaceModels["ctr.XORKeyStream"] = func(x *Exec, fr *Frame, iv IfaceV, args []Value, pos token.Pos) Value {
+		st := iv.V.(StructV)
+		dst, src := asSlice(args[0]), asSlice(args[1])
+		if !(fr != nil && fr.ghost) {
+			x.oblige("S", "panic", BvUle(src.Len, dst.Len), pos)
+		}
+		if n, ok := concreteLen(src); ok && n <= 256 {
+			for j := 0; j < n; j++ {
+				ks := term(x.callSpec("nasalg.CTRByte", st.F[0], st.F[1], Scalar{bv64(int64(j))}))
+				x.store(PtrV{Obj: dst.Obj, Path: []PathElem{{Field: -1, Idx: BvAdd(dst.Off, bv64(int64(j)))}}, Nil: False()},
+					Scalar{BvXor(x.byteAt(src, bv64(int64(j))), ks)}, True())
+			}
+			return nil
+		}
+		dv, ok := x.heapGet(dst.Obj).(SymArrV)
+		if !ok {
+			unsup("XORKeyStream into concrete store with symbolic length")
+		}
+		x.noteWrite(dst.Obj)
+		k := FreshBound("k", BV(64))
+		j := BvSub(k, dst.Off)
+		inRange := And(BvUle(dst.Off, k), BvUlt(j, src.Len))
+		ks := term(x.callSpec("nasalg.CTRByte", st.F[0], st.F[1], Scalar{j}))
+		arr := DefArr(8, k, Ite(inRange, BvXor(x.byteAt(src, j), ks), Select(dv.Arr, k)))
+		x.st.heap.m[dst.Obj] = SymArrV{Arr: arr, Len: dv.Len, W: 8}
+		return nil
+	}
+	// github.com/aead/cmac.Sum(msg, block, 16) = (AES-CMAC(key, msg), nil)
+	extModels["github.com/aead/cmac.Sum"] = func(x *Exec, fr *Frame, args []Value, pos token.Pos) Value {
+		blk, ok := args[1].(IfaceV)
+		if !ok || blk.Tag != "aesblock" {
+			unsup("cmac.Sum on unknown block")
+		}
+		ts := term(args[2])
+		if !ts.IsConst() || ts.U64() != 16 {
+			unsup("cmac.Sum with tag size other than 16")
+		}
+		tag := x.callSpec("nasalg.CMAC", blk.V, args[0])
+		return TupleV{E: []Value{x.arrayToFreshSlice(tag, "cmac"), IfaceV{Nil: True(), Tag: "error"}}}
+	}
+}
